@@ -166,6 +166,18 @@ def _run_external(calls, repo, flavour, tmp):
                                timeout=3600)
         except subprocess.TimeoutExpired:
             raise RuntimeError("kernel runner (%s) did not finish even under the line budget (inconclusive)" % flavour)
+    if r.returncode in (-4, -6, -7, -8, -11):
+        # the interpreter running this flavour was killed by SIGILL/SIGABRT/SIGBUS/SIGFPE/SIGSEGV while the interpreted
+        # reference executed the same calls: the accelerated code does not compute the same thing (it does not compute)
+        where = "?"
+        if os.path.exists(outp + ".progress"):
+            with open(outp + ".progress") as pf:
+                where = pf.read().strip()
+        fn = where.split()[-1] if where != "?" else "?"
+        raise Violation("C19:process-crash:%s" % fn, "the interpreter running the %s kernels of %s died with signal %d during call %s "
+                        "(%d calls, all executed by the interpreted reference); stderr tail: %s"
+                        % (flavour if flavour != "ref" else "compiled", repo, -r.returncode, where, len(calls),
+                           (r.stderr or "")[-300:]))
     if r.returncode != 0 or not os.path.exists(outp):
         raise RuntimeError("kernel runner (%s, %s) failed: %s" % (flavour, repo, (r.stdout + r.stderr)[-1500:]))
     with open(outp, "rb") as f:
